@@ -47,15 +47,32 @@ class Workspace:
         os.makedirs(root, exist_ok=True)
         self.cache = {}
         self.raw = {}
+        self.broken = {}
         self.n = 0
 
     def input_file(self, inp):
         key = canon(inp)
         if key not in self.cache:
             path = os.path.join(self.root, f"in{len(self.cache)}.cool")
-            G.write_cooler(path, inp["ax"], inp["symm"], [tuple(c) for c in inp["cols"]], inp["px"])
             self.cache[key] = path
-            self.raw[key] = G.read_raw(path, [c for c, _ in inp["cols"]])
+            try:
+                with warnings.catch_warnings():
+                    warnings.simplefilter("ignore")
+                    with G.time_limit(20.0):
+                        G.write_cooler(path, inp["ax"], inp["symm"], [tuple(c) for c in inp["cols"]], inp["px"])
+                        self.raw[key] = G.read_raw(path, [c for c, _ in inp["cols"]])
+            except BaseException as e:  # noqa: BLE001  (the input could not be written: a result, not a crash)
+                if isinstance(e, (KeyboardInterrupt, SystemExit)):
+                    raise
+                self.broken[key] = "input-not-writable:" + G.classify(e)
+                # the model still gets the table the generator asked for
+                px = sorted([p[0], p[1], list(p[2])] for p in inp["px"])
+                n = G.nbins(inp["ax"])
+                names = [c for c, _ in inp["cols"]]
+                self.raw[key] = {"cols": [list(c) for c in inp["cols"]], "px": px,
+                                 "off": [sum(1 for p in px if p[0] < b) for b in range(n + 1)],
+                                 "sum": sum(p[2][names.index("count")] for p in px) if "count" in names else 0,
+                                 "nnz": len(px), "symm": bool(inp["symm"])}
         return self.cache[key]
 
     def input_raw(self, inp):
@@ -102,6 +119,9 @@ def _merge_cli(out, uris, case):
 def impl_run(ws, case, limit=20.0):
     """returns the canonical observable of the merged cooler or an exception-class string"""
     paths = [ws.input_file(inp) for inp in case["inputs"]]
+    for inp_ in case["inputs"]:
+        if canon(inp_) in ws.broken:
+            return ws.broken[canon(inp_)]
     tree = case.get("tree") or list(case.get("order") or range(len(paths)))
     merge = _merge_cli if case.get("via") == "cli" else _merge_api
     made = []
@@ -244,6 +264,9 @@ def oracle(case):
 
 def verdict(ctx, case, got, exp, i64):
     """property oracle on the implementation's outcome"""
+    if isinstance(got, str) and got.startswith("input-not-writable"):
+        ctx.fail(case, {"an input cooler with in-range values could not be created": got}, None)
+        return False
     if exp == "refuse":
         if isinstance(got, dict):
             ctx.fail(case, {"expected": "refusal (error)", "got": got}, SIG_I64 if i64 else None)
